@@ -26,6 +26,7 @@ import (
 
 	"github.com/ory/fosite"
 	"github.com/ory/fosite/compose"
+	"github.com/ory/fosite/handler/oauth2"
 	"github.com/ory/fosite/handler/openid"
 	"github.com/ory/fosite/storage"
 	"github.com/ory/fosite/token/jwt"
@@ -45,6 +46,7 @@ type HConfig struct {
 	LifeDev           int64    `json:"life_dev_ms"`
 	ParLife           int64    `json:"par_life_ms"`
 	ParEnforced       bool     `json:"par_enforced"`
+	JWTAccess         bool     `json:"jwt_access,omitempty"` // access tokens are JWTs (compose.NewOAuth2JWTStrategy); monitors only
 	RawStore          bool     `json:"raw_store,omitempty"` // run on the raw MemoryStore (aliasing included) instead of the by-value adapter
 }
 
@@ -182,6 +184,7 @@ type world struct {
 	clients []*fosite.DefaultClient
 	issued  []issuedTok
 	epoch   time.Time
+	jwt     bool
 }
 
 func ms(d int64) time.Duration { return time.Duration(d) * time.Millisecond }
@@ -226,10 +229,15 @@ func newWorld(t *testing.T, h *HHistory) *world {
 		w.store.Clients[dc.ID] = dc
 	}
 	w.store.Users["peter"] = storage.MemoryUserRelation{Username: "peter", Password: "secret"}
+	var st interface{} = &valueStore{w.store}
 	if h.Cfg.RawStore {
-		w.prov = compose.ComposeAllEnabled(w.conf, w.store, theKey())
+		st = w.store
+	}
+	if h.Cfg.JWTAccess {
+		w.jwt = true
+		w.prov = composeAllEnabledJWT(w.conf, st, theKey())
 	} else {
-		w.prov = compose.ComposeAllEnabled(w.conf, &valueStore{w.store}, theKey())
+		w.prov = compose.ComposeAllEnabled(w.conf, st, theKey())
 	}
 	return w
 }
@@ -382,7 +390,7 @@ func (w *world) exec(op *HOp) HObs {
 				o.Err = errName(err)
 				return o
 			}
-			presp, err := w.prov.NewPushedAuthorizeResponse(ctx, par, &fosite.DefaultSession{})
+			presp, err := w.prov.NewPushedAuthorizeResponse(ctx, par, w.sess(""))
 			if err != nil {
 				o.Err = errName(err)
 				return o
@@ -404,8 +412,7 @@ func (w *world) exec(op *HOp) HObs {
 		for _, a := range op.GAud {
 			ar.GrantAudience(a)
 		}
-		resp, err := w.prov.NewAuthorizeResponse(ctx, ar, &openid.DefaultSession{Subject: op.Subject,
-			Claims: &jwt.IDTokenClaims{Subject: op.Subject}, Headers: &jwt.Headers{}})
+		resp, err := w.prov.NewAuthorizeResponse(ctx, ar, w.authSess(op.Subject))
 		if err != nil {
 			o.Err = errName(err)
 			return o
@@ -442,7 +449,7 @@ func (w *world) exec(op *HOp) HObs {
 		}
 		w.claim(form, op)
 		req := w.postReq("/token", form, op.Auth)
-		ar, err := w.prov.NewAccessRequest(ctx, req, &fosite.DefaultSession{})
+		ar, err := w.prov.NewAccessRequest(ctx, req, w.sess(""))
 		if err != nil {
 			o.Err = errName(err)
 			return o
@@ -486,7 +493,7 @@ func (w *world) exec(op *HOp) HObs {
 			form.Set("audience", strings.Join(op.Aud, " "))
 		}
 		req := w.postReq("/token", form, op.Auth)
-		ar, err := w.prov.NewAccessRequest(ctx, req, &fosite.DefaultSession{})
+		ar, err := w.prov.NewAccessRequest(ctx, req, w.sess(""))
 		if err != nil {
 			o.Err = errName(err)
 			return o
@@ -543,7 +550,7 @@ func (w *world) exec(op *HOp) HObs {
 				req.SetBasicAuth(url.QueryEscape(clientID(op.Auth)), url.QueryEscape(clientSecret(op.Auth)))
 			}
 		}
-		_, err := w.prov.NewIntrospectionRequest(ctx, req, &fosite.DefaultSession{})
+		_, err := w.prov.NewIntrospectionRequest(ctx, req, w.sess(""))
 		o.Err = errName(err)
 	case "device_auth":
 		form := url.Values{}
@@ -562,7 +569,7 @@ func (w *world) exec(op *HOp) HObs {
 			o.Err = errName(err)
 			return o
 		}
-		resp, err := w.prov.NewDeviceResponse(ctx, dr, &fosite.DefaultSession{})
+		resp, err := w.prov.NewDeviceResponse(ctx, dr, w.sess(""))
 		if err != nil {
 			o.Err = errName(err)
 			return o
@@ -594,14 +601,16 @@ func (w *world) exec(op *HOp) HObs {
 		}
 		dr.GrantedScope = append(fosite.Arguments{}, op.Granted...)
 		dr.GrantedAudience = append(fosite.Arguments{}, op.GAud...)
-		dr.GetSession().(*fosite.DefaultSession).Subject = op.Subject
+		if ss, ok := dr.GetSession().(interface{ SetSubject(string) }); ok {
+			ss.SetSubject(op.Subject)
+		}
 	case "device_poll":
 		form := url.Values{}
 		form.Set("grant_type", "urn:ietf:params:oauth:grant-type:device_code")
 		form.Set("device_code", w.token(op.Tok, "dc"))
 		w.claim(form, op)
 		req := w.postReq("/token", form, op.Auth)
-		ar, err := w.prov.NewAccessRequest(ctx, req, &fosite.DefaultSession{})
+		ar, err := w.prov.NewAccessRequest(ctx, req, w.sess(""))
 		if err != nil {
 			o.Err = errName(err)
 			return o
@@ -649,7 +658,7 @@ func (w *world) exec(op *HOp) HObs {
 		if op.Hint == "other" {
 			use = "garbage"
 		}
-		_, _, err := w.prov.IntrospectToken(ctx, w.token(op.Tok, kind), use, &fosite.DefaultSession{}, op.Scopes...)
+		_, _, err := w.prov.IntrospectToken(ctx, w.token(op.Tok, kind), use, w.sess(""), op.Scopes...)
 		if err != nil {
 			o.Err = "inactive"
 		}
@@ -682,7 +691,7 @@ func (w *world) probe() []*HPayload {
 		default:
 			continue
 		}
-		tu, ar, err := w.prov.IntrospectToken(ctx, it.tok, use, &fosite.DefaultSession{})
+		tu, ar, err := w.prov.IntrospectToken(ctx, it.tok, use, w.sess(""))
 		if err != nil {
 			continue
 		}
@@ -884,8 +893,48 @@ func coqHistory(h *HHistory, obs []HObs) string {
 		prev = obs[i].Probes
 	}
 	ctor := "HCase"
-	if h.Cfg.RawStore {
+	if h.Cfg.JWTAccess {
+		ctor = "HCaseJwt"
+	} else if h.Cfg.RawStore {
 		ctor = "HCaseRaw"
 	}
 	return fmt.Sprintf("%s %s %s\n   %s", ctor, coqCfg(&h.Cfg), L(cl), "["+strings.Join(steps, ";\n    ")+"]")
+}
+
+
+// ---------------------------------------------------------------- JWT access-token strategy
+
+// composeAllEnabledJWT is compose.ComposeAllEnabled with the core strategy replaced by the JWT access-token
+// strategy (authorize codes and refresh tokens stay HMAC, as compose.NewOAuth2JWTStrategy arranges it)
+func composeAllEnabledJWT(config *fosite.Config, storage interface{}, key interface{}) fosite.OAuth2Provider {
+	keyGetter := func(context.Context) (interface{}, error) { return key, nil }
+	return compose.Compose(config, storage,
+		&compose.CommonStrategy{
+			CoreStrategy:               compose.NewOAuth2JWTStrategy(keyGetter, compose.NewOAuth2HMACStrategy(config), config),
+			RFC8628CodeStrategy:        compose.NewDeviceStrategy(config),
+			OpenIDConnectTokenStrategy: compose.NewOpenIDConnectStrategy(keyGetter, config),
+			Signer:                     &jwt.DefaultSigner{GetPrivateKey: keyGetter},
+		},
+		compose.OAuth2AuthorizeExplicitFactory, compose.OAuth2AuthorizeImplicitFactory, compose.OAuth2ClientCredentialsGrantFactory,
+		compose.OAuth2RefreshTokenGrantFactory, compose.OAuth2ResourceOwnerPasswordCredentialsFactory, compose.RFC7523AssertionGrantFactory,
+		compose.RFC8628DeviceFactory, compose.RFC8628DeviceAuthorizationTokenFactory,
+		compose.OpenIDConnectExplicitFactory, compose.OpenIDConnectImplicitFactory, compose.OpenIDConnectHybridFactory,
+		compose.OpenIDConnectRefreshFactory, compose.OpenIDConnectDeviceFactory,
+		compose.OAuth2TokenIntrospectionFactory, compose.OAuth2TokenRevocationFactory,
+		compose.OAuth2PKCEFactory, compose.PushedAuthorizeHandlerFactory)
+}
+
+// the sessions the embedding application hands to the library
+func (w *world) sess(subject string) fosite.Session {
+	if w.jwt {
+		return &oauth2.JWTSession{JWTClaims: &jwt.JWTClaims{Subject: subject}, JWTHeader: &jwt.Headers{}, Subject: subject}
+	}
+	return &fosite.DefaultSession{Subject: subject}
+}
+
+func (w *world) authSess(subject string) fosite.Session {
+	if w.jwt {
+		return w.sess(subject)
+	}
+	return &openid.DefaultSession{Subject: subject, Claims: &jwt.IDTokenClaims{Subject: subject}, Headers: &jwt.Headers{}}
 }
